@@ -23,7 +23,9 @@ MANIFEST = dict(
          "every positive adsorbate/material constant (read at exactly the temperature the code passes) multiplies by exactly the SI factor of a "
          "hand-written specification (Units/UnitsSpec.v); identity, there-and-back, composition and element-wise corollaries; the refusal clause "
          "for ALL strings; temperature K<->degC. The translator is validated on every run by evaluating the generated model (QNum, vm_compute) "
-         "against the implementation on the whole label space, and the implementation is compared with the SPEC. Full proof for values/labels; "
+         "against the implementation on the whole label space, and the implementation is compared with the SPEC; every shipped adsorbate with a "
+         "thermodynamic backend, and call SEQUENCES on the shared mutable backend state of six of them, are compared with the model whose "
+         "oracle constants come from an independent fresh CoolProp state. Full proof for values/labels; "
          "binary64 rounding is outside the theorem (validated to 1e-11).",
     note="Trusted: Coq kernel; Reals axioms (sig_forall_dec, functional_extensionality_dep) as Print Assumptions reports; translator "
          "tools/py2v_units.py; Adsorbate/Material reads are an oracle record of functions of temperature (CoolProp not modelled); theorems over "
